@@ -29,20 +29,18 @@ def P(pid, title, rule, quick, thorough, race=False, note="", text="", technique
 
 
 # ---------------------------------------------------------------------------------------------------
-# property table (filled in as checks are built)
+# property table: one JSON file per property under props.d/ (keys = the arguments of P(); "quick"/"thorough"
+# are dicts with checks, shards, timeout [s], optional steps, shrinktime, parallel, fuzz=[{target,time,timeout}])
 # ---------------------------------------------------------------------------------------------------
-
-P("C24", "QUIC transport parameters and varints encode losslessly",
-  rule="rapid draws u64 values with boundary bias (2^6,2^14,2^30,2^62 +-1) and requested widths, and lists of "
-       "transport parameters of every concrete type; oracle = independent RFC 9000 s16 varint codec and TLV parser. "
-       "non-trivial = value within 2 of a width boundary or >= 2^62, or a list containing GREASE/fake parameters; "
-       "distinct by value/width or by the (id,len) vector of the list",
-  quick=T(3000), thorough=T(60000, shards=8, timeout=1800),
-  technique="property-based testing (rapid) against an independent reference varint/TLV codec",
-  text="Generated-input search with an independent RFC 9000 codec as oracle; boundary-biased sampling of the 62-bit "
-       "space (not symbolic), so absence of failure is evidence, not proof.",
-  note="trusts the harness' own RFC 9000 section 16 codec; 62-bit space sampled with boundary bias")
-
+import glob as _glob
+for _f in sorted(_glob.glob(os.path.join(os.path.dirname(os.path.abspath(__file__)), "props.d", "C*.json"))):
+    _d = json.load(open(_f))
+    _pid = _d.pop("id")
+    for _tier in ("quick", "thorough"):
+        _t = _d[_tier]
+        _t.setdefault("shards", 1)
+        _t.setdefault("timeout", 600)
+    P(_pid, **_d)
 
 NOT_BUILT_REASON = "check not built yet (planned per DESIGN.md section 4); nothing is claimed for it"
 
